@@ -185,6 +185,19 @@ def run (ctx):
     ctx.floor('protocol cases decided', n_cases, 30)
     # halting through event.halt
     hb = [n for n in g.nodes if n.kind == 'break' and any(m is after for m, l in n.succ) and any('event.halt' in f and f.endswith(':truthy') for f in q.fact_strs(g, n))]
+    if not hb:
+      # by evaluation (the verdict on a handler's result may come out of a helper as a flag): a handler that returns an ordinary
+      # value and has set event.halt ends the delivery; with event.halt clear the next handler runs
+      res_ = {}
+      for hv_ in (True, False):
+        ends_ = set()
+        for cn in calls_h:
+          fs = q.fact_strs(g, cn)
+          if 'classCall:falsy' in fs: continue
+          env = q.Env({rv_v: 7, once_v: False, 'classCall': True, 'event.halt': hv_, 'classCall and event.halt': hv_})
+          for path, fe in q.paths_under(repo, mod, g, env, cn, [head, after], em): ends_.add(path[-1] is after)
+        res_[hv_] = ends_
+      if res_[True] == {True} and res_[False] == {False}: hb = [after]
     ctx.ob('R-DOM', raise_, "setting event.halt stops delivery", bool(hb), "break under event.halt" if hb else "no break guarded by event.halt", raise_, 'D3')
 
   # the documented shortcut values handlers return (EventContinue, EventHalt, EventRemove, EventHaltAndRemove) and EventReturn(halt,
@@ -230,7 +243,7 @@ def run (ctx):
     ctx.bad('R-DEF', rem, "undefined name `%s`" % nm, "NameError on this branch", (mod, node), 'D4')
   rg = q.cfg_of(rem)
   branches = len([n for n in rg.nodes if n.kind == 'cond'])
-  ctx.floor('removeListener branch conditions', branches, 5)
+  n_forms_ = [0]
   if not ub and not un: ctx.ok('R-DEF', rem, "all identifier forms definitely assigned", "no use-before-assignment on any feasible path", rem, 'D4')
   # index/field agreement: entries are (priority, handler, once, eid): eid filters use x[3], handler filters x[1]
   for n in ast.walk(rem.node):
@@ -280,6 +293,26 @@ def run (ctx):
       ctx.ob('R-AGREE', rem, "removing by bare id removes exactly that entry (first generated id)", good, "removeListener(%d) on a sample table" % first if good else
              "the id generator's first id is %d; removeListener(%d) on a table holding ids %d..%d leaves %s (expected the entry with id %d gone and nothing else): the first listener created in the process can never be "
              "removed by id - a one-shot handler or one that returns EventRemove / False is invoked on every later raise" % (first, first, first, first + 2, outs[0], first), rem, 'D4')
+  # ... and every identifier form, by evaluation on the same kind of table: (type, id) pair, bare id with and without an event type,
+  # handler object with and without an event type - each removes exactly the entries it names
+  if first is not None:
+    f0 = first
+    def T0 (): return {'T': [(0, 'h1', False, f0), (0, 'h2', False, f0 + 1)], 'U': [(0, 'h1', False, f0 + 2)]}
+    FORMS = [("bare id, all event types", f0, None, {'T': [(0, 'h2', False, f0 + 1)], 'U': [(0, 'h1', False, f0 + 2)]}),
+             ("bare id with its event type", f0 + 2, 'U', {'T': T0()['T'], 'U': []}),
+             ("(type, id) pair", ('T', f0 + 1), None, {'T': [(0, 'h1', False, f0)], 'U': T0()['U']}),
+             ("handler, all event types", 'h1', None, {'T': [(0, 'h2', False, f0 + 1)], 'U': []}),
+             ("handler with an event type", 'h1', 'T', {'T': [(0, 'h2', False, f0 + 1)], 'U': T0()['U']})]
+    for nm_, hv_, et_, want_ in FORMS:
+      env = q.Env({rem.params[1]: hv_, (rem.params[2] if len(rem.params) > 2 else 'eventType'): et_, 'self._eventMixin_handlers': T0()}, [((lambda e: isinstance(e, ast.Call) and call_name(e) == '_eventMixin_init'), None)])
+      outs = [e_.exact.get('self._eventMixin_handlers') for p_, e_ in q.paths_under(repo, mod, rg, env, rg.entry, [rg.exit], em, limit=60)]
+      if not outs or any(not isinstance(o_, dict) for o_ in outs):
+        ctx.undecided('R-AGREE', rem, "removeListener, %s" % nm_, "not evaluable on the sample table", rem, 'D4'); continue
+      n_forms_[0] += 1
+      good = all(o_ == want_ for o_ in outs)
+      ctx.ob('R-AGREE', rem, "removeListener, %s: exactly the named entries go" % nm_, good, "on a sample table" if good else
+             "removeListener(%r, %r) on the table %s leaves %s (expected %s): a listener that was to be removed keeps being invoked, or another one is lost" % (hv_, et_, T0(), outs[0], want_), rem, 'D4')
+  ctx.floor('removeListener identifier forms evaluated', n_forms_[0], 5)
   # a removal must not hide behind a short-circuit: `altered = altered or self._remove(...)` stops removing after the first hit
   def changes_table (fn, depth=0):
     if list(q.mutations_of_attr(fn.node, TABLE)) or [1 for t, v_, s_, k in q.stores_in(fn.node) if isinstance(t, ast.Subscript) and q.mentions_attr(t, TABLE)]: return True
